@@ -133,8 +133,16 @@ def gen_settings(rng, throttle=None):
         trig = 1
     mn = rng.choice([0, 1, 2]) if fps < 9 else rng.choice([0, 1])
     mx = mn + (rng.choice([0, 1, 2]) if fps < 9 else rng.choice([0, 1]))
+    motion = dict(FIXED_MOTION, **{"trigger-frames": trig})
+    r = rng.random()          # the optional threshold limits (0 = unset) are valid in every combination
+    if r < 0.25:
+        motion["temp-thresh-min"] = 50
+    elif r < 0.4:
+        motion["temp-thresh-max"] = 5000
+    elif r < 0.55:
+        motion["temp-thresh-min"], motion["temp-thresh-max"] = 50, 5000
     s = dict(min=mn, max=mx, preview=preview, const=rng.random() < 0.6, throttle=False,
-             motion=dict(FIXED_MOTION, **{"trigger-frames": trig}), device=rng.choice(["dev", "trap-12", "ünï"]),
+             motion=motion, device=rng.choice(["dev", "trap-12", "ünï"]),
              deviceid=rng.choice([1, 7, 4242]))
     if throttle:
         s["throttle"] = True
